@@ -1,7 +1,7 @@
 (* Property C06 -- theorems only. *)
 From Coq Require Import List String Bool ZArith NArith.
 From RG.Load Require Import Place Validate.
-From RGW Require Import Gen_Place Gen_Valid Inst_Valid.
+From RGW Require Import Gen_Place Gen_Valid Gen_Errs Inst_Valid.
 Import ListNotations.
 Local Open Scope string_scope.
 
@@ -75,6 +75,19 @@ Theorem C06_errors_located_sites : gen_unlocated_error_sites =
 Proof. exact errors_located_sites. Qed.
 Print Assumptions C06_errors_located_sites.
 
+(* error_lines_filled: the line of every loader error is the Line of a bundle import, a rule or a filter expression; the three
+   ops whose arguments irconv writes by hand (without a Line) have cases in newFilter that never locate anything at an argument;
+   no irconv / compiler error is located at a variable that starts out nil *)
+Theorem C06_error_lines_filled :
+  gen_loader_line_exprs = ["bundle.Line"; "filter.Line"; "imp.Line"; "rule.Line"] /\
+  (forall op, In op gen_irconv_lineless_ops -> exists c, In c gen_newfilter_arg_lines /\ fst c = op /\ snd c = []) /\
+  gen_error_zero_locs = [].
+Proof.
+  split; [exact loader_line_exprs|split; [|exact error_zero_locs]].
+  intros op Hin. apply arg_lines_unused_spec. pose proof lineless_args_unlocated as H. rewrite forallb_forall in H. now apply H.
+Qed.
+Print Assumptions C06_error_lines_filled.
+
 (* binary_filter_terminates: for all comparisons, newBinaryExprFilter (its regenerated swap guard) calls itself at most once --
    Load cannot overflow the stack there -- and an accepted comparison has a variable property on the left and a constant or the
    same property on the right *)
@@ -143,3 +156,9 @@ Example ex_leak_without_flag :
   validate gen_num_buckets gen_place_cases gen_kind_names gen_object_names gen_tag_names gen_swap_guard tab r = true /\
   gen_validate_spec r = false /\ gen_validate r = false.
 Proof. vm_compute. repeat split; reflexivity. Qed.
+(* the obligation about argument lines is not vacuous: three ops have hand-written arguments, and a case that takes the line of
+   its argument is refuted *)
+Example ex_lineless_ops : gen_irconv_lineless_ops = ["FilterVarContainsOp"; "FilterVarFilterOp"; "FilterVarTypeIdenticalToOp"].
+Proof. reflexivity. Qed.
+Example ex_arg_line_refuted : arg_lines_unused [("FilterVarContainsOp", ["arg.Line"])] "FilterVarContainsOp" = false.
+Proof. reflexivity. Qed.
